@@ -110,6 +110,9 @@ impl crate::Io for SymIoP {
 // ---------------------------------------------------------------------------------------------
 // contract stubs (inherent methods of the same generic impl, see DESIGN.md 2.5)
 // ---------------------------------------------------------------------------------------------
+/// A1 stub accepts the whole rest of a packet in one step (loop harnesses: keeps the loop bound small;
+/// partial acceptance is c01_flush_outbound_contract's and c01_step_*'s subject)
+pub(crate) static mut STEP_WHOLE: bool = false;
 pub(crate) static mut N_DRAIN: u8 = 0;
 pub(crate) static mut N_STEP: u8 = 0;
 pub(crate) static mut N_READPKT: u8 = 0;
@@ -193,7 +196,7 @@ impl<'buf, IO: Io> Connection<'_, 'buf, IO> {
                     self.handle_disconnect();
                     return Err(Error::Transport(vc_err::<IO>()));
                 }
-                let k: usize = kani::any();
+                let k: usize = if STEP_WHOLE { g::LEN - g::WRITTEN } else { kani::any() };
                 kani::assume(g::WRITTEN < g::LEN && k >= 1 && k <= g::LEN - g::WRITTEN);
                 g::WRITTEN += k;
                 g::IO_ACC_N += k;
@@ -289,6 +292,7 @@ pub(crate) fn reset_all() {
         N_READPKT = 0;
         CHECK_ENQ = false;
         IO_HEALTHY = false;
+        STEP_WHOLE = false;
         IO_WHOLE = false;
         IN_LEN = 0;
         IN_OFF = 0;
@@ -518,3 +522,117 @@ pub(crate) fn st_fill_packet_reader<'buf, C: Io>(_packet_reader: &mut PacketRead
         }
     }
 }
+
+// ---------------------------------------------------------------------------------------------
+// C16 / C10: the drive_packet loop
+// ---------------------------------------------------------------------------------------------
+pub(crate) static mut N_PROC: u8 = 0;
+pub(crate) static mut PROC_PINGRESP: u8 = 0;
+
+impl<'buf, IO: Io> Connection<'_, 'buf, IO> {
+    /// A5 `process_received_packet`: consumes one buffered packet; outcome arbitrary among the ones
+    /// established by `c08_bad_packet_latches` (deliver / internal incl. PINGRESP and owed ack /
+    /// fatal with latch / Rejected without latch).
+    pub(crate) fn kst_process_received_packet(&mut self) -> Result<Option<usize>, Error<IO::Error>> {
+        use crate::de::verif_x_de::reader_obs;
+        unsafe {
+            if reader_obs::PKT_AVAIL == 0 {
+                return Ok(None);
+            }
+            N_PROC += 1;
+            reader_obs::PKT_AVAIL -= 1;
+            match kani::any::<u8>() % 5 {
+                0 => Ok(Some(5)),
+                1 => {
+                    // PINGRESP
+                    PROC_PINGRESP += 1;
+                    self.session.runtime.ping_timeout = None;
+                    Ok(None)
+                }
+                2 => {
+                    // an inbound publish / PUBREL that owes an acknowledgement
+                    if g::Q[1] == g::K_NONE {
+                        let _ = g::st_queue_control(&mut self.session.data.outbound, g::ACK_ACTION);
+                    }
+                    Ok(None)
+                }
+                3 => {
+                    self.handle_disconnect();
+                    Err(Error::Disconnected)
+                }
+                _ => Err(Error::Peer(PeerError::Rejected(crate::ReasonCode::UnspecifiedError))),
+            }
+        }
+    }
+}
+
+macro_rules! loop_harness {
+    ($name:ident, $unwind:literal, $body:block) => {
+        #[kani::proof]
+        #[kani::unwind($unwind)]
+        #[kani::stub(embassy_time::Instant::now, crate::verif_common::stub_now)]
+        #[kani::stub(Outbound::next_step, g::st_next_step)]
+        #[kani::stub(Outbound::arm_replay, g::st_arm_replay)]
+        #[kani::stub(Outbound::queue_control, g::st_queue_control)]
+        #[kani::stub(Outbound::has_pending_pingreq, g::st_has_pending_pingreq)]
+        #[kani::stub(Connection::perform_outbound_step, Connection::kst_perform_outbound_step)]
+        #[kani::stub(Connection::process_received_packet, Connection::kst_process_received_packet)]
+        #[kani::stub(crate::de::PacketReader::packet_available, crate::de::verif_x_de::reader_obs::st_packet_available)]
+        fn $name() $body
+    };
+}
+
+// @harness props=C16,C10,C11 tier=quick layer=L3p unwind=10
+// @harness funcs="Connection::drive_packet, drive, service, service_outbound_once, maybe_queue_pingreq (projection)"
+// @harness sym="buffered inbound packets (0..2) with arbitrary handling outcome each, current outbound entry (kind, progress), clock, next_ping / ping_timeout, live, every step outcome" bounds="<= 2 buffered packets, <= 1 current + 2 queued outbound entries, each sent in one step; loop <= 9 iterations (unwinding asserted)"
+// @harness assumes="A1 (step), A5 (process_received_packet), K1; transport healthy or failing per step"
+loop_harness!(c16_drive_packet_exits, 10, {
+    use crate::de::verif_x_de::reader_obs;
+    reset_all();
+    let mut rx = [0u8; 8];
+    let mut tx = [0u8; 16];
+    let mut session = Session::new(ConfigBuilder::new(Buffers::new(&mut rx, &mut tx)).keepalive_interval(60));
+    g::any_current(0, 2);
+    unsafe {
+        kani::assume(g::KIND == g::K_NONE || g::KIND == g::K_PING || g::KIND == g::K_RET);
+        reader_obs::PKT_AVAIL = kani::any();
+        kani::assume(reader_obs::PKT_AVAIL <= 2);
+        N_PROC = 0;
+        PROC_PINGRESP = 0;
+        STEP_WHOLE = true;
+    }
+    let pkt0 = unsafe { reader_obs::PKT_AVAIL };
+    session.runtime.next_ping = None; // (ping scheduling: c10_service_ping_and_timeout)
+    let pt: Option<u64> = if kani::any() { Some(kani::any()) } else { None };
+    session.runtime.ping_timeout = pt.map(Instant::from_ticks);
+    let live: bool = kani::any();
+    let mut conn = Connection { session: &mut session, io: SymIoP, event: ConnectEvent::Connected, live };
+    let m0 = g::measure();
+    let r = conn.drive_packet();
+    unsafe {
+        if !live {
+            assert!(matches!(r, Err(Error::Disconnected)) && N_STEP == 0 && N_PROC == 0 && g::IO_WRITES == 0, "C11: drive on a dead handle must fail fast without touching anything");
+        }
+        match &r {
+            Ok(Progress::Idle) => {
+                assert!(N_STEP == 0 && N_PROC == 0, "C16: Idle reported although something was done");
+                assert!(g::KIND == g::K_NONE && g::Q[0] == g::K_NONE && reader_obs::PKT_AVAIL == 0, "C16: Idle reported although work is pending");
+            }
+            Ok(Progress::Advanced) => {
+                assert!(g::IO_ACC_N >= 1 || g::IO_FLUSH_OK >= 1 || N_PROC >= 1, "C16: progress reported without an accepted byte, a completed flush or a consumed inbound packet");
+                assert!(g::KIND == g::K_NONE && g::Q[0] == g::K_NONE, "C16: drive returned with outbound work still pending and no error");
+                assert!(reader_obs::PKT_AVAIL == 0, "C16: drive returned with a buffered inbound packet unprocessed");
+            }
+            Ok(Progress::Inbound(_)) => assert!(N_PROC >= 1, "C04: a message is surfaced only from a processed packet"),
+            Err(_) => {}
+        }
+        // C10: a buffered packet (possibly the PINGRESP) is processed before the dead-peer check
+        if live && pkt0 > 0 {
+            assert!(N_PROC >= 1, "C10: the keep-alive timeout was evaluated before a packet that was already buffered");
+        }
+        assert!(N_STEP as usize <= m0 + 5 * (N_PROC as usize) + 2 * g::N_QPING as usize, "C16: more steps than bytes and packets to send");
+    }
+    kani::cover!(matches!(r, Ok(Progress::Idle)));
+    kani::cover!(matches!(r, Ok(Progress::Advanced)) && unsafe { N_STEP >= 2 });
+    kani::cover!(matches!(r, Ok(Progress::Inbound(_))));
+});
